@@ -10,6 +10,29 @@ NOTE = ("trusted: clang 14 front end + CFG builder, cmake's compile database, th
         "The check decides the listed structural clauses only - see DESIGN.md section 5 'Not decided'.")
 
 CLAIMS = {
+    "C01": dict(
+        technique="iteration-path enumeration of the token loop + CFG must-precede rules + boolean-skeleton entailment",
+        text="Static, token level, all argument vectors: every feasible iteration path of parse()'s token loop consumes the token "
+             "(positional append, `--` mode switch, or a true result of try_parse_as_option/toggle) or ends in raise<parsing_error>; "
+             "try_parse_* report a match only after update_value on the matched object; every update_value changes the value state on all "
+             "exits; matches() can be true only under a comparison with the option's own name/letter; option values are stored uncut. "
+             "NOT decided: letter-level accounting inside bundles (-vz, -vo file) - genuine deviations today, documented in DESIGN.md.",
+        ref="5/C01"),
+    "C02": dict(
+        technique="verbatim value-flow (carrier) analysis + must-facts on the value/next-token selection + regex-literal language inclusion",
+        text="Static: the value stored by option/multi_option is a copy-only carrier of user_input::value(); value() returns the whole "
+             "argument for value tokens and the part after the FIRST '=' otherwise (constructor split checked); lists only grow by append; "
+             "the next token is taken as value only under !has_value && next != end && next->is_value with the extra advance exactly then; "
+             "the token regex literal provably accepts every byte string after a well-formed name and '=' (automata inclusion); as<T>() uses a "
+             "fresh default-state stream. The round-trip equation over all spellings is not decided.",
+        ref="5/C02"),
+    "C13": dict(
+        technique="sibling-shape + must-facts on the declaration functions, derived-state coupling over write sets, special-member facts from the AST",
+        text="Static: each group::option/multi_option/toggle inserts only under the cross-kind name guard (raising parser_error), keeps "
+             "the creation-order list in sync and returns the map element; has_option_with_name consults every kind and no stale derived "
+             "state; the short_name setter's two guards dominate the assignment; parse() runs the letter-uniqueness check first, with one "
+             "set for all kinds and groups; kind exhaustiveness of collectors; parser's move operations are user-provided and rebind groups.",
+        ref="5/C13"),
     "C03": dict(
         technique="must-facts dataflow on the three check() functions + verbatim value-flow (carrier) analysis + CFG path rules",
         text="Static, all inputs/environments: in option/multi_option/toggle::check the environment lookup is proven to be dominated by "
